@@ -51,6 +51,9 @@ type n3 struct {
 	Fin        []*n3  // try: finally exprs (nil: no finally clause)
 	HasC       bool
 	HasF       bool
+	ViaMacro   bool   // rendered through a macro: the try form the evaluator sees was not built by the reader
+	CatchSym   string // "e" or "_"
+	Name       string // sym/tsym: which symbol is read ("e" or "_")
 }
 
 var c03Consts = [][2]string{
@@ -74,6 +77,13 @@ type c03Gen struct {
 func (g *c03Gen) constNode() *n3 {
 	c := c03Consts[g.tp.Draw(LaneWork, len(c03Consts))]
 	return &n3{Kind: "const", Src: c[0], Val: c[1]}
+}
+
+func (g *c03Gen) symName() string {
+	if g.tp.Chance(LaneWork, 1, 4) {
+		return "_"
+	}
+	return "e"
 }
 
 func (g *c03Gen) trace(prefix string) *n3 {
@@ -104,7 +114,14 @@ func (g *c03Gen) expr(depth int, inFin bool, inBody bool) *n3 {
 			return g.trace("f")
 		case 1:
 			// what the catch symbol resolves to inside finally is observable through the trace
-			return &n3{Kind: "tsym"}
+			return &n3{Kind: "tsym", Name: g.symName()}
+		}
+		if g.tp.Chance(LaneWork, 1, 6) {
+			// a finally body may fail too: it must not change the result or the error of the form
+			if g.tp.Chance(LaneWork, 1, 2) {
+				return &n3{Kind: "throw", Kids: []*n3{g.constNode()}}
+			}
+			return g.probe(false)
 		}
 		return g.constNode()
 	}
@@ -114,7 +131,7 @@ func (g *c03Gen) expr(depth int, inFin bool, inBody bool) *n3 {
 	}
 	switch g.tp.Weighted(LaneWork, w) {
 	case 9:
-		return &n3{Kind: "tsym"}
+		return &n3{Kind: "tsym", Name: g.symName()}
 	case 10:
 		// a builtin failing at macro-expansion time
 		g.sites++
@@ -129,11 +146,11 @@ func (g *c03Gen) expr(depth int, inFin bool, inBody bool) *n3 {
 	case 2:
 		return g.constNode()
 	case 3:
-		return &n3{Kind: "sym"}
+		return &n3{Kind: "sym", Name: g.symName()}
 	case 4:
 		var x *n3
 		if g.tp.Chance(LaneWork, 1, 4) {
-			x = &n3{Kind: "sym"}
+			x = &n3{Kind: "sym", Name: g.symName()}
 		} else {
 			x = g.constNode()
 		}
@@ -162,6 +179,11 @@ func (g *c03Gen) try(depth int, inBody bool) *n3 {
 	for i := 0; i < nBody; i++ {
 		n.Kids = append(n.Kids, g.expr(depth, false, true))
 	}
+	n.CatchSym = "e"
+	if g.tp.Chance(LaneWork, 1, 5) {
+		n.CatchSym = "_"
+	}
+	n.ViaMacro = g.tp.Chance(LaneWork, 1, 5)
 	shape := g.tp.Weighted(LaneWork, []int{3, 2, 3, 1})
 	if shape == 0 || shape == 2 {
 		n.HasC = true
@@ -191,6 +213,13 @@ func renderAll(ns []*n3) string {
 	return strings.Join(parts, " ")
 }
 
+func (n *n3) symbol() string {
+	if n.Name == "_" {
+		return "_"
+	}
+	return "e"
+}
+
 func (n *n3) render() string {
 	switch n.Kind {
 	case "const":
@@ -206,9 +235,9 @@ func (n *n3) render() string {
 		}
 		return "(probe! " + strconv.Itoa(n.Site) + ")"
 	case "sym":
-		return "e"
+		return n.symbol()
 	case "tsym":
-		return "(trace! (list :e e))"
+		return "(trace! (list :" + map[string]string{"e": "e", "_": "u"}[n.symbol()] + " " + n.symbol() + "))"
 	case "mprobe":
 		return "(m-probe " + strconv.Itoa(n.Site) + ")"
 	case "mthrow":
@@ -246,12 +275,29 @@ func (n *n3) render() string {
 			return "(let [other 1] " + x + ")"
 		}
 	case "try":
+		cs := n.CatchSym
+		if cs == "" {
+			cs = "e"
+		}
+		if n.ViaMacro {
+			// the same form, but assembled by a macro: (m-try* catch-symbol body handler finally)
+			b, h, f := "(do "+renderAll(n.Kids)+")", "(do "+renderAll(n.Catch)+")", "(do "+renderAll(n.Fin)+")"
+			switch {
+			case n.HasC && n.HasF:
+				return "(m-try-cf " + cs + " " + b + " " + h + " " + f + ")"
+			case n.HasC:
+				return "(m-try-c " + cs + " " + b + " " + h + ")"
+			case n.HasF:
+				return "(m-try-f " + b + " " + f + ")"
+			}
+			return "(m-try " + b + ")"
+		}
 		s := "(try"
 		if len(n.Kids) > 0 {
 			s += " " + renderAll(n.Kids)
 		}
 		if n.HasC {
-			s += " (catch e " + renderAll(n.Catch) + ")"
+			s += " (catch " + cs + " " + renderAll(n.Catch) + ")"
 		}
 		if n.HasF {
 			s += " (finally " + renderAll(n.Fin) + ")"
@@ -340,9 +386,17 @@ func (rt *c03Rt) probe(ctx context.Context, site int, raw bool) (types.MalType, 
 // ---- reference model ----
 
 type m3 struct {
-	plan  c03Plan
-	trace []string
-	scope []string // bindings of e, innermost last
+	plan   c03Plan
+	trace  []string
+	scope  []string // bindings of e, innermost last
+	uscope []string // bindings of _, innermost last
+}
+
+func (m *m3) lookup(name string) string {
+	if name == "_" {
+		return m.uscope[len(m.uscope)-1]
+	}
+	return m.scope[len(m.scope)-1]
 }
 
 func (m *m3) failure(f string, site int) (string, bool, string) {
@@ -389,11 +443,15 @@ func (m *m3) eval(n *n3) (string, bool, string) {
 	case "mthrow":
 		return "", true, n.Val
 	case "tsym":
-		v := "(:e " + m.scope[len(m.scope)-1] + ")"
+		tag := ":e"
+		if n.symbol() == "_" {
+			tag = ":u"
+		}
+		v := "(" + tag + " " + m.lookup(n.symbol()) + ")"
 		m.trace = append(m.trace, v)
 		return v, false, ""
 	case "sym":
-		return m.scope[len(m.scope)-1], false, ""
+		return m.lookup(n.symbol()), false, ""
 	case "throw":
 		v, th, o := m.eval(n.Kids[0])
 		if th {
@@ -415,12 +473,18 @@ func (m *m3) eval(n *n3) (string, bool, string) {
 	case "try":
 		v, th, o := m.seq(n.Kids)
 		if th && n.HasC {
-			m.scope = append(m.scope, o)
-			v, th, o = m.seq(n.Catch)
-			m.scope = m.scope[:len(m.scope)-1]
+			if n.CatchSym == "_" {
+				m.uscope = append(m.uscope, o)
+				v, th, o = m.seq(n.Catch)
+				m.uscope = m.uscope[:len(m.uscope)-1]
+			} else {
+				m.scope = append(m.scope, o)
+				v, th, o = m.seq(n.Catch)
+				m.scope = m.scope[:len(m.scope)-1]
+			}
 		}
 		if n.HasF {
-			// finally bodies are generated without probes and throws: they cannot fail
+			// a finally body that fails stops there; its failure changes neither the result nor the error
 			m.seq(n.Fin)
 		}
 		return v, th, o
@@ -486,6 +550,11 @@ const c03Setup = `(do
   (defmacro m-id (fn [x] x))
   (defmacro m-probe (fn [i] (do (probe! i) i)))
   (defmacro m-throw (fn [x] (throw x)))
+  (def _ :outer-underscore)
+  (defmacro m-try (fn [b] (list 'try b)))
+  (defmacro m-try-c (fn [s b h] (list 'try b (list 'catch s h))))
+  (defmacro m-try-f (fn [b f] (list 'try b (list 'finally f))))
+  (defmacro m-try-cf (fn [s b h f] (list 'try b (list 'catch s h) (list 'finally f))))
   (def call1 (fn [f] (f)))
   (def call3 (fn [f] (call1 (fn [] (call1 f)))))
   nil)`
@@ -571,7 +640,7 @@ func (c03) Run(tp *Tape, opt RunOpt) *RunOut {
 				gotTrace = append(gotTrace, ev.A)
 			}
 		}
-		m := &m3{plan: plan, scope: []string{":outer-e"}}
+		m := &m3{plan: plan, scope: []string{":outer-e"}, uscope: []string{":outer-underscore"}}
 		v, th, o := m.eval(root)
 		want := "(" + v + " :outer-e)"
 		if th {
@@ -606,7 +675,7 @@ func (c03) Run(tp *Tape, opt RunOpt) *RunOut {
 			sig := "trace-differs"
 			gj, wj := strings.Join(gotTrace, " "), strings.Join(m.trace, " ")
 			switch {
-			case strings.Contains(gj, ":evaluated-twice") || strings.Contains(gj, ":again"):
+			case strings.Count(gj, ":evaluated-twice")+strings.Count(gj, ":again") > strings.Count(wj, ":evaluated-twice")+strings.Count(wj, ":again"):
 				sig = "a-value-was-evaluated-again"
 			case countPrefix(gotTrace, ":fin") > countPrefix(m.trace, ":fin"):
 				sig = "finally-ran-more-than-once"
